@@ -262,6 +262,32 @@ func driveJSON(c *Ctx) error {
 							}
 						}
 					}
+					// the same document through the encoding/json integration (SimpleJSONValue: implied type on the way in,
+					// the value's own type on the way out)
+					var sv ctyjson.SimpleJSONValue
+					var serr error
+					sp2, smsg := guard(func() { serr = json.Unmarshal(b, &sv) })
+					switch {
+					case sp2:
+						ev["sj"] = failed("panic", trunc(smsg))
+					case serr != nil:
+						ev["sj"] = failed("error", trunc(serr.Error()))
+					default:
+						var sb2 []byte
+						sp3, smsg3 := guard(func() { sb2, serr = json.Marshal(sv) })
+						switch {
+						case sp3:
+							ev["sj"] = failed("panic", trunc(smsg3))
+						case serr != nil:
+							ev["sj"] = failed("error", trunc(serr.Error()))
+						default:
+							if rd, derr := bytesDoc(sb2); derr != nil {
+								ev["sj"] = failed("error", "bytes are not JSON")
+							} else {
+								ev["sj"] = J{"ok": true, "doc": rd, "val": Project(sv.Value)}
+							}
+						}
+					}
 					c.Out.Emit(ev)
 				}
 			}
